@@ -114,9 +114,49 @@ func hpackOnce(c *hpackCase, blocks [][]byte) (res result) {
 	return
 }
 
+// bystander: "a failure affects only that connection". After every case a FRESH decoder - another connection's -
+// decodes a well-formed block of Huffman-coded fields (what every real client sends); it must yield exactly those
+// fields whatever the decoder of the case has just been fed. (MOSN's hpack decoders share pooled scratch buffers.)
+var (
+	bystanderFields = []xhpack.HeaderField{{Name: ":path", Value: "/probe/number/7/of/another/connection"}, {Name: "x-bystander", Value: "www.example.com-keeps-its-own-headers"}, {Name: "cookie", Value: "session=0123456789abcdef"}}
+	bystanderBlock  = func() []byte {
+		var b bytes.Buffer
+		e := xhpack.NewEncoder(&b)
+		for _, f := range bystanderFields {
+			_ = e.WriteField(f)
+		}
+		return b.Bytes()
+	}()
+)
+
+func hpackBystander() *failure {
+	var got []mhpack.HeaderField
+	dec := mhpack.NewDecoder(4096, func(f mhpack.HeaderField) { got = append(got, f) })
+	_, err := dec.Write(bystanderBlock)
+	if err == nil {
+		err = dec.Close()
+	}
+	if err != nil {
+		return &failure{"hpack/decode-error-leaks-into-another-decoder", fmt.Sprintf("a fresh decoder fails on a well-formed block after another decoder was fed the case's input: %v", err)}
+	}
+	if len(got) != len(bystanderFields) {
+		return &failure{"hpack/decode-error-leaks-into-another-decoder", fmt.Sprintf("a fresh decoder yields %d fields instead of %d: %v", len(got), len(bystanderFields), got)}
+	}
+	for i, f := range bystanderFields {
+		if got[i].Name != f.Name || got[i].Value != f.Value {
+			return &failure{"hpack/decode-error-leaks-into-another-decoder", fmt.Sprintf("a fresh decoder (another connection) decodes field %d of a well-formed block as %q: %q instead of %q: %q after another decoder was fed the case's input", i, got[i].Name, got[i].Value, f.Name, f.Value)}
+		}
+	}
+	return nil
+}
+
 func checkHpack(c *hpackCase, blocks [][]byte) result {
 	res := hpackOnce(c, blocks)
 	if res.fail != nil {
+		return res
+	}
+	if f := hpackBystander(); f != nil {
+		res.fail = f
 		return res
 	}
 	total := 0
@@ -164,6 +204,15 @@ var hostileHpack = [][]byte{
 	{0x40, 0x81, 0xff, 0x81, 0xff},                   // huffman strings with EOS padding only
 	{0x80},                                           // index 0
 	{0x00, 0x00, 0x00},                               // empty name, empty value
+	huffmanThenGarbage("SEED-of-another-kind/0123456789"),
+	huffmanThenGarbage("x"),
+}
+
+// huffmanThenGarbage: a literal field whose Huffman-coded name starts with valid symbols and ends in two bytes of
+// ones (more than 7 bits of padding): the decoder fails after it has already produced output.
+func huffmanThenGarbage(s string) []byte {
+	h := append(xhpack.AppendHuffmanString(nil, s), 0xff, 0xff)
+	return append([]byte{0x00, 0x80 | byte(len(h))}, h...)
 }
 
 func mutateHpack(rt *rapid.T, b []byte) ([]byte, string) {
